@@ -401,9 +401,10 @@ class UpnpServerService(UpnpService):
                 continue
             prop_el = ET.SubElement(event_el, "e:property")
             ET.SubElement(prop_el, state_var.name).text = str(state_var.value)
-        message = (
-            '<?xml version="1.0"?>\n' + ET.tostring(event_el, encoding="utf-8").decode()
-        )
+        # a literal carriage return would be normalised to a line feed by the subscriber's XML parser
+        message = '<?xml version="1.0"?>\n' + ET.tostring(
+            event_el, encoding="utf-8"
+        ).decode().replace("\r", "&#13;")
 
         headers = {
             "CONTENT-TYPE": 'text/xml; charset="utf-8"',
